@@ -49,6 +49,9 @@ func runChild(b *buildOut, p *plan.Plan, wallLimit time.Duration) *plan.Result {
 	err := cmd.Run()
 	res := &plan.Result{}
 	if rb, rerr := os.ReadFile(of); rerr == nil && json.Unmarshal(rb, res) == nil && res.Stats != nil {
+		if os.Getenv("VERIF_CHILD_OUT") != "" { // diagnostics: what the child printed
+			res.Log = append(res.Log, "CHILD OUTPUT", out.String())
+		}
 		if strings.Contains(out.String(), "WARNING: DATA RACE") {
 			res.Log = append(res.Log, tail(out.String(), 12000))
 			res.Stats["race_reports"] = int64(strings.Count(out.String(), "WARNING: DATA RACE"))
